@@ -58,6 +58,10 @@ type block struct {
 }
 
 var blocks = []block{
+	{"timevals", func(p *pg, g string) {
+		p.w("%s_t = time.time(year = 2021, month = 3, day = 4, location = \"UTC\")\n%s_d = time.parse_duration(\"90m\")\n%s_pair = (%s_t, %s_d, %s_t + %s_d)", g, g, g, g, g, g, g)
+		p.w("%s_fields = (%s_t.year, %s_t.hour, %s_d.hours, %s_d.minutes)", g, g, g, g, g)
+	}},
 	{"dictlong", func(p *pg, g string) {
 		ws := p.words(6 + p.r.Intn(14))
 		p.w("%s_w = %s", g, quoteList(ws))
@@ -183,6 +187,22 @@ var errorEndings = []func(p *pg, g string){
 		p.w("def %s_r(n): return %s_r2(n)\ndef %s_r2(n): return 1 // (n - n)\n%s_r(3)", g, g, g, g)
 	},
 	func(p *pg, g string) { p.w("%s_x = undefined_global_nam", g) }, // static error with spell check
+	func(p *pg, g string) { // misspelt attribute with several equally close candidates: which one does the hint name?
+		p.w("def %s_attr(t): return t.yeour\n%s_attr(time.now())", g, g)
+	},
+	func(p *pg, g string) {
+		p.w("def %s_attr(d): return d.minuts + d.secnds\n%s_attr(time.parse_duration(\"1h\"))", g, g)
+	},
+	func(p *pg, g string) { p.w("def %s_attr(x): return x.apend\n%s_attr([]) ", g, g) },
+	func(p *pg, g string) { // the callee fails before its first instruction (argument binding), several frames deep
+		p.w("def %s_target(alpha_parameter, beta_parameter):\n    a = alpha_parameter\n    b = beta_parameter\n    c = [a, b]\n    d = {a: b}\n    e = (c, d)\n    return e\ndef %s_l1(n):\n    x = n\n    y = x + 1\n    return %s_target(y)\ndef %s_l2(n):\n    p = 1\n    return [%s_l1(k) for k in [n]]\ndef %s_l3(n):\n    q = 2\n    return (lambda m: %s_l2(m))(n)\n%s_l3(1)", g, g, g, g, g, g, g, g)
+	},
+	func(p *pg, g string) {
+		p.w("def %s_target(a, b = 1, *, c):\n    x = a\n    y = b\n    z = c\n    return (x, y, z)\ndef %s_mid(f):\n    u = 0\n    v = 1\n    return f(1, 2, 3)\ndef %s_top():\n    w = 5\n    return sorted([2, 1], key = lambda k: %s_mid(%s_target))\n%s_top()", g, g, g, g, g, g)
+	},
+	func(p *pg, g string) { // the 'called recursively' check fires before the callee runs
+		p.w("def %s_rec(n):\n    a = n\n    b = a + 1\n    c = b + 1\n    if n > 3: return c\n    return %s_help(n + 1)\ndef %s_help(n):\n    s = n\n    t = s\n    return %s_rec(t)\n%s_rec(0)", g, g, g, g, g)
+	},
 	func(p *pg, g string) { // several different keyword names supplied twice: which one does the message quote?
 		p.w("def %s_build():\n    return dict(alpha_keyword_one = 1, beta_keyword_two = 2, gamma_keyword_three = 3, **{\"gamma_keyword_three\": 4, \"beta_keyword_two\": 5, \"alpha_keyword_one\": 6})\n%s_build()", g, g)
 	},
